@@ -130,6 +130,16 @@ var c16Statements = []string{
 	"SELECT * FROM t WHERE CASE WHEN s = 'a' THEN 1 ELSE 0 END = 1",
 	"SELECT * FROM t GROUP BY s + n",
 	"SELECT * FROM t GROUP BY CONCAT() AS c",
+	// pushdown (P-prefixed) forms of the dimension functions, with parameters their constructors choke on
+	"SELECT * FROM t WHERE PCONCAT() = 'x'",
+	"SELECT * FROM t GROUP BY PCONCAT() AS c",
+	"SELECT * FROM t GROUP BY PLUA('s', 1, 2) AS l",
+	"SELECT * FROM t WHERE PLUA('x', 'k', 'a') = 1",
+	"SELECT * FROM t WHERE PSPLIT(s) = 1",
+	"SELECT * FROM t WHERE PSUBSTR(s, 'a', 'b') = 'a'",
+	"SELECT * FROM t WHERE PANY() = 1",
+	"SELECT * FROM t WHERE PLEN() = 1",
+	"SELECT * FROM t WHERE PNOSUCH(s) = 1",
 	"SELECT * FROM t ORDER BY",
 	"SELECT * FROM nosuchtable",
 	"SELECT nosuchfield FROM t",
@@ -145,7 +155,7 @@ var c16Statements = []string{
 }
 
 var c16Keywords = []string{"SELECT", "FROM", "WHERE", "GROUP", "BY", "HAVING", "ORDER", "LIMIT", "ASOF", "UNTIL", "AS", "AND", "OR", "NOT", "IN", "LIKE", "IS", "NULL", "UNION", "DELETE", "INSERT", "UPDATE", "SET", "SHOW", "DESC", "ASC",
-	"SUM", "AVG", "MIN", "MAX", "COUNT", "WAVG", "IF", "BOUNDED", "PERCENTILE", "SHIFT", "CROSSHIFT", "CROSSTAB", "CROSSTABT", "period", "stride", "LUA", "ARRAY", "CONCAT", "LEN", "SPLIT", "SUBSTR", "ANY", "RAND", "HGET",
+	"SUM", "AVG", "MIN", "MAX", "COUNT", "WAVG", "IF", "BOUNDED", "PERCENTILE", "SHIFT", "CROSSHIFT", "CROSSTAB", "CROSSTABT", "period", "stride", "LUA", "ARRAY", "CONCAT", "LEN", "SPLIT", "SUBSTR", "ANY", "RAND", "HGET", "PLUA", "PCONCAT", "PLEN", "PSPLIT", "PSUBSTR", "PANY", "PRAND", "PHGET", "P",
 	"(", ")", ",", "*", "'", "''", "`", "--", "/*", ";", "=", "<>", "<", ">", "+", "-", "/", "%", "_", "_points", "_time", "_having", "0", "-1", "1e309", "'1h'", "'-1h'", "t", "nosuch"}
 
 func c16Tokens(s string) []string {
